@@ -86,13 +86,15 @@ func runC21(c *an.Check) {
 
 	c21R1(c, mt, byNum)
 	numOf := c21R2Types(c, pm, byNum)
-	c21R2Switch(c, onMsg, numOf)
+	disp := c21NewDispatch(w, onMsg)
+	c21R2Switch(c, disp, numOf)
 	c21R2Marshal(c, marshal)
 	c21R2Custom(c, custom, toHex, byNum)
+	c21R2Conversions(c, mt)
 	c21R3(c)
-	c21R4(c, onMsg, numOf)
+	c21R4(c, disp, numOf)
 	c21R5(c, marshal)
-	c21R6(c, onMsg)
+	c21R6(c, disp)
 }
 
 // ---- R1 ------------------------------------------------------------------------------
@@ -188,14 +190,29 @@ func c21R2Types(c *an.Check, pm *types.Named, byNum map[int64]int) map[*types.Na
 			vals := map[int64]bool{}
 			okConst := true
 			for _, r := range an.Returns(m) {
-				v, isK := an.ConstInt(r.Results[0])
-				if !isK {
+				if v, isK := an.ConstInt(r.Results[0]); isK {
+					vals[v] = true
+					continue
+				}
+				// through in-module helpers / locals
+				ss := w.Sources(r.Results[0], an.FlowOpts{IntoCallees: true})
+				for _, l := range ss.Leaves {
+					if v, isK := an.ConstInt(l.Val); isK && l.Kind == "const" {
+						vals[v] = true
+					} else {
+						okConst = false
+					}
+				}
+				if len(ss.Leaves) == 0 {
 					okConst = false
 				}
-				vals[v] = true
+			}
+			if len(vals) > 1 {
+				c.Bad("C21.R2", cons, w.Pos(m.Pos()), fmt.Sprintf("MessageType() can return different constants %v: the type number of an encoded message depends on run-time state", c21SortedInts(vals)))
+				continue
 			}
 			if !okConst || len(vals) != 1 {
-				c.Bad("C21.R2", cons, w.Pos(m.Pos()), "MessageType() does not return one constant: the type number of an encoded message depends on run-time state")
+				c.Unknown("C21.R2", cons, w.Pos(m.Pos()), "MessageType() does not return a value this rule can reduce to one constant")
 				continue
 			}
 			var v int64
@@ -262,59 +279,270 @@ func c21UnmarshalTarget(call ssa.CallInstruction) (*types.Named, *ssa.Alloc, boo
 	return nt, al, true
 }
 
-// c21ArmConst: the constant c of a dominating `msgType == c` fact, where
-// msgType is result #0 of PeerswapCustomMessageType.
-func c21ArmConsts(w *an.World, at ssa.Instruction) []int64 {
-	var out []int64
-	for _, f := range w.FactsDominating(at) {
-		if f.NonNum || f.Rel != "==" || len(f.Terms) != 1 {
-			continue
+// c21Dispatch is what OnMessageReceived does with the parsed message type.
+type c21Dispatch struct {
+	w       *an.World
+	fn      *ssa.Function
+	parse   *ssa.Call // PeerswapCustomMessageType, or a helper handing its results back unchanged
+	typeVal ssa.Value // result #0 of parse
+	term    string    // its name in the engine's facts
+	okParse []an.Edge
+	decodes []c21Decode
+}
+
+// c21Decode is one json.Unmarshal executed for a message: directly in
+// OnMessageReceived or inside an in-module helper it calls (ctx is then that call).
+type c21Decode struct {
+	call ssa.CallInstruction
+	typ  *types.Named
+	slot *ssa.Alloc
+	ctx  ssa.CallInstruction
+}
+
+func c21NewDispatch(w *an.World, fn *ssa.Function) *c21Dispatch {
+	d := &c21Dispatch{w: w, fn: fn}
+	passThrough := func(f *ssa.Function) bool {
+		inner := callsNamed(w, f, c21FnCustom)
+		if len(inner) != 1 {
+			return false
 		}
-		for k, coef := range f.Terms {
-			if !strings.HasSuffix(k, "call:"+c21FnCustom+"#0") && k != "call:"+c21FnCustom+"#0" {
+		for _, r := range an.Returns(f) {
+			if len(r.Results) != 2 {
+				return false
+			}
+			for i, res := range r.Results {
+				ex, ok := res.(*ssa.Extract)
+				if !ok || ex.Index != i || ex.Tuple != inner[0].Value() {
+					return false
+				}
+			}
+		}
+		return true
+	}
+	n := 0
+	for _, call := range an.Calls(fn) {
+		ci := w.Info(call)
+		if ci.Name == c21FnCustom || (ci.Static != nil && w.InModule(ci.Static) && ci.Static.Blocks != nil && passThrough(ci.Static)) {
+			n++
+			d.parse, _ = call.(*ssa.Call)
+		}
+	}
+	if n != 1 {
+		d.parse = nil
+	}
+	if d.parse != nil {
+		if vs := an.ResultValues(d.parse, 0); len(vs) == 1 {
+			d.typeVal = vs[0]
+			d.term = w.Term(vs[0])
+		}
+		d.okParse, _ = an.OkEdges(d.parse)
+	}
+	// decodes
+	seen := map[*ssa.Function]bool{fn: true}
+	var scan func(f *ssa.Function, ctx ssa.CallInstruction, depth int)
+	scan = func(f *ssa.Function, ctx ssa.CallInstruction, depth int) {
+		for _, call := range an.Calls(f) {
+			ci := w.Info(call)
+			cx := ctx
+			if cx == nil {
+				cx = call
+			}
+			if ci.Name == c21FnUnmarshal {
+				nt, al, ok := c21UnmarshalTarget(call)
+				if ok {
+					d.decodes = append(d.decodes, c21Decode{call: call, typ: nt, slot: al, ctx: cx})
+				} else {
+					d.decodes = append(d.decodes, c21Decode{call: call, ctx: cx})
+				}
 				continue
 			}
-			switch coef {
-			case 1:
-				out = append(out, -f.Const)
-			case -1:
-				out = append(out, f.Const)
+			if ci.Static != nil && w.InModule(ci.Static) && ci.Static.Blocks != nil && depth < 2 && !seen[ci.Static] && w.FnRel(ci.Static) == "swap" {
+				seen[ci.Static] = true
+				scan(ci.Static, cx, depth+1)
 			}
 		}
 	}
+	scan(fn, nil, 0)
+	return d
+}
+
+// guards: the constants c of dominating `msgType == c` facts at instruction
+// at; onlyNeq reports that msgType is constrained by `!=` facts only;
+// uninterpreted reports a dominating branch on the message type that the
+// engine could not turn into a fact.
+func (d *c21Dispatch) guards(at ssa.Instruction) (eq []int64, onlyNeq bool, uninterpreted bool) {
+	if d.typeVal == nil {
+		return nil, false, true
+	}
+	nNeq := 0
+	for _, f := range d.w.FactsDominating(at) {
+		if f.NonNum || len(f.Terms) != 1 {
+			continue
+		}
+		coef, has := f.Terms[d.term]
+		if !has {
+			continue
+		}
+		switch {
+		case f.Rel == "==" && coef == 1:
+			eq = append(eq, -f.Const)
+		case f.Rel == "==" && coef == -1:
+			eq = append(eq, f.Const)
+		case f.Rel == "!=":
+			nNeq++
+		}
+	}
+	// branches on the type that yield no such fact
+	dep := map[ssa.Value]bool{d.typeVal: true}
+	for _, b := range d.fn.Blocks {
+		i, ok := b.Instrs[len(b.Instrs)-1].(*ssa.If)
+		if !ok || b == at.Block() || !c21DependsOn(i.Cond, dep) {
+			continue
+		}
+		for idx := 0; idx < 2; idx++ {
+			if !an.EdgeDominates(an.Edge{From: b, Idx: idx}, at.Block()) {
+				continue
+			}
+			t, f := d.w.FactsOfIf(i)
+			fact := t
+			if idx == 1 {
+				fact = f
+			}
+			if _, has := fact.Terms[d.term]; fact.NonNum || len(fact.Terms) != 1 || !has || (fact.Rel != "==" && fact.Rel != "!=") {
+				uninterpreted = true
+			}
+		}
+	}
+	return eq, len(eq) == 0 && nNeq > 0, uninterpreted
+}
+
+// c21DependsOn: the backward slice of v through phis, operators, conversions
+// and call arguments contains one of the given values.
+func c21DependsOn(v ssa.Value, on map[ssa.Value]bool) bool {
+	seen := map[ssa.Value]bool{}
+	var rec func(v ssa.Value) bool
+	rec = func(v ssa.Value) bool {
+		if v == nil || seen[v] {
+			return false
+		}
+		seen[v] = true
+		if on[v] {
+			return true
+		}
+		switch x := v.(type) {
+		case *ssa.Phi:
+			for _, e := range x.Edges {
+				if rec(e) {
+					return true
+				}
+			}
+			for _, pr := range x.Block().Preds {
+				if i, ok := pr.Instrs[len(pr.Instrs)-1].(*ssa.If); ok && rec(i.Cond) {
+					return true
+				}
+			}
+		case *ssa.BinOp:
+			return rec(x.X) || rec(x.Y)
+		case *ssa.UnOp:
+			return rec(x.X)
+		case *ssa.Convert:
+			return rec(x.X)
+		case *ssa.ChangeType:
+			return rec(x.X)
+		case *ssa.MakeInterface:
+			return rec(x.X)
+		case *ssa.Extract:
+			return rec(x.Tuple)
+		case *ssa.Lookup:
+			return rec(x.X) || rec(x.Index)
+		case *ssa.Call:
+			for _, a := range x.Call.Args {
+				if rec(a) {
+					return true
+				}
+			}
+		}
+		return false
+	}
+	return rec(v)
+}
+
+func c21SortedInts(m map[int64]bool) []int64 {
+	var out []int64
+	for k := range m {
+		out = append(out, k)
+	}
+	sort.Slice(out, func(i, j int) bool { return out[i] < out[j] })
 	return out
 }
 
-func c21R2Switch(c *an.Check, onMsg *ssa.Function, numOf map[*types.Named]int64) {
+func c21R2Switch(c *an.Check, d *c21Dispatch, numOf map[*types.Named]int64) {
 	w := c.W
+	onMsg := d.fn
 	decoded := map[string]bool{}
+	unattributed := 0
 	n := 0
-	for _, u := range callsNamed(w, onMsg, c21FnUnmarshal) {
-		nt, _, ok := c21UnmarshalTarget(u)
-		if !ok {
+	for _, dec := range d.decodes {
+		u := dec.call
+		if dec.typ == nil {
+			unattributed++
 			c.Unknown("C21.R2", "OnMessageReceived decode", w.Pos(u.Pos()), "json.Unmarshal target is not a (pointer to a) named struct")
 			continue
 		}
-		n++
+		nt := dec.typ
 		cons := "OnMessageReceived arm decoding " + nt.Obj().Name()
 		num, isMsg := numOf[nt]
-		arms := c21ArmConsts(w, u)
+		if !isMsg {
+			c.Note("C21.R2", cons, w.Pos(u.Pos()), "json.Unmarshal into a struct that is not a swap.PeerMessage: not a message decode, not judged here (R4 still requires it behind the guards)")
+			continue
+		}
+		n++
+		arms, _, _ := d.guards(dec.ctx)
+		match, other := false, false
+		for _, a := range arms {
+			if a == num {
+				match = true
+			} else {
+				other = true
+			}
+		}
 		switch {
-		case !isMsg:
-			c.Bad("C21.R2", cons, w.Pos(u.Pos()), "the decoded struct is not a swap.PeerMessage: the writer's table has no number for it")
-		case len(arms) == 0:
-			c.Bad("C21.R2", cons, w.Pos(u.Pos()), "the payload is decoded without a dominating `msgType == <constant>` test. Facts that do hold: "+an.DescribeFacts(w.FactsDominating(u)))
-		case len(arms) > 1 || arms[0] != num:
-			c.Bad("C21.R2", cons, w.Pos(u.Pos()), fmt.Sprintf("a payload received with type %v is decoded as %s, which the sender marks with type %d: reader and writer disagree", arms, nt.Obj().Name(), num))
-		default:
+		case match && !other:
 			decoded[nt.Obj().Name()] = true
 			c.OK("C21.R2", cons, w.Pos(u.Pos()), fmt.Sprintf("decoded under msgType == %d", num))
+		case other:
+			c.Bad("C21.R2", cons, w.Pos(u.Pos()), fmt.Sprintf("a payload received with type %v is decoded as %s, which the sender marks with type %d: reader and writer disagree", arms, nt.Obj().Name(), num))
+		default:
+			unattributed++
+			c.Unknown("C21.R2", cons, w.Pos(u.Pos()), "the payload is decoded here without a dominating `msgType == <constant>` test that this rule can read. Facts that do hold: "+an.DescribeFacts(w.FactsDominating(dec.ctx)))
 		}
 	}
-	c.AtLeast("C21.R2", "json.Unmarshal arms in OnMessageReceived", n, 7)
+	c.AtLeast("C21.R2", "message decodes (json.Unmarshal into a swap.PeerMessage) reached from OnMessageReceived", n, 7)
+	// is some code selected by msgType == num at all?
+	hasArm := map[int64]bool{}
+	anyUninterpreted := d.typeVal == nil
+	for _, b := range onMsg.Blocks {
+		if len(b.Instrs) == 0 {
+			continue
+		}
+		eq, _, un := d.guards(b.Instrs[0])
+		for _, k := range eq {
+			hasArm[k] = true
+		}
+		if un {
+			anyUninterpreted = true
+		}
+	}
 	for _, e := range c21Proto {
-		if e.typ != "" && !decoded[e.typ] {
-			c.Bad("C21.R2", "OnMessageReceived arm decoding "+e.typ, w.Pos(onMsg.Pos()), fmt.Sprintf("no arm decodes %s (%d) into %s under the right type test: the message is dropped or mis-decoded", e.wire, e.num, e.typ))
+		if e.typ == "" || decoded[e.typ] {
+			continue
+		}
+		cons := "OnMessageReceived arm decoding " + e.typ
+		switch {
+		case !hasArm[e.num] && !anyUninterpreted && unattributed == 0:
+			c.Bad("C21.R2", cons, w.Pos(onMsg.Pos()), fmt.Sprintf("no arm decodes %s (%d) into %s under the right type test: the message is dropped or mis-decoded", e.wire, e.num, e.typ))
+		default:
+			c.Unknown("C21.R2", cons, w.Pos(onMsg.Pos()), fmt.Sprintf("no decode of %s (%d) into %s was recognised under `msgType == %d` (the dispatch on the message type is not fully interpreted)", e.wire, e.num, e.typ, e.num))
 		}
 	}
 }
@@ -336,6 +564,76 @@ func c21StripConv(v ssa.Value) ssa.Value {
 	}
 }
 
+// c21MarshalOf classifies a payload value: "msg" = result #0 of json.Marshal
+// applied to want (directly or through in-module helpers that hand the result
+// back), "other" = json.Marshal of something else, "" = not recognised. errOK
+// reports that the value is only used where the marshal error is nil.
+func c21MarshalOf(w *an.World, v ssa.Value, want ssa.Value, at *ssa.BasicBlock, depth int) (kind string, errOK bool) {
+	ex, _ := v.(*ssa.Extract)
+	if ex == nil || ex.Index != 0 || depth > 3 {
+		return "", false
+	}
+	call, _ := ex.Tuple.(*ssa.Call)
+	if call == nil {
+		return "", false
+	}
+	okE, _ := an.OkEdges(call)
+	guarded := len(okE) > 0 && at != nil && an.EdgesDominate(okE, at)
+	ci := w.Info(call)
+	if ci.Name == "func:encoding/json.Marshal" {
+		if c21StripConv(call.Call.Args[0]) == want {
+			return "msg", guarded
+		}
+		return "other", guarded
+	}
+	f := ci.Static
+	if f == nil || !w.InModule(f) || f.Blocks == nil {
+		return "", false
+	}
+	// which parameter receives want?
+	pi := -1
+	for i, a := range call.Call.Args {
+		if c21StripConv(a) == want && i < len(f.Params) {
+			pi = i
+		}
+	}
+	if pi < 0 {
+		return "", false
+	}
+	res := "msg"
+	for _, r := range an.Returns(f) {
+		if len(r.Results) < 2 {
+			return "", false
+		}
+		if an.IsNilConst(r.Results[0]) {
+			continue // the error return of the helper
+		}
+		k, _ := c21MarshalOf(w, r.Results[0], f.Params[pi], nil, depth+1)
+		// the helper must hand the marshal error back with the payload, or
+		// return the payload only when the error is nil
+		inner, _ := r.Results[0].(*ssa.Extract)
+		errPassed := false
+		if inner != nil {
+			if e1, ok := r.Results[len(r.Results)-1].(*ssa.Extract); ok && e1.Tuple == inner.Tuple && e1.Index == 1 {
+				errPassed = true
+			}
+			if ic, ok := inner.Tuple.(*ssa.Call); ok {
+				if ok2, _ := an.OkEdges(ic); len(ok2) > 0 && an.EdgesDominate(ok2, r.Block()) {
+					errPassed = true
+				}
+			}
+		}
+		switch {
+		case k == "msg" && errPassed:
+		case k == "other":
+			return "other", guarded
+		default:
+			res = ""
+		}
+	}
+	return res, guarded
+}
+
 func c21R2Marshal(c *an.Check, fn *ssa.Function) {
 	w := c.W
 	if len(fn.Params) != 1 || fn.Signature.Results().Len() != 3 {
@@ -349,49 +647,256 @@ func c21R2Marshal(c *an.Check, fn *ssa.Function) {
 			continue // error return
 		}
 		n++
-		good := true
-		var why []string
+		var bad, unk []string
 		// payload
-		ex, _ := r.Results[0].(*ssa.Extract)
-		var jm *ssa.Call
-		if ex != nil && ex.Index == 0 {
-			jm, _ = ex.Tuple.(*ssa.Call)
-		}
-		if jm == nil || w.Info(jm).Name != "func:encoding/json.Marshal" || c21StripConv(jm.Call.Args[0]) != msg {
-			good = false
-			why = append(why, "the payload is not json.Marshal(msg): "+w.Term(r.Results[0]))
-		} else if okE, _ := an.OkEdges(jm); len(okE) == 0 || !an.EdgesDominate(okE, r.Block()) {
-			good = false
-			why = append(why, "the payload is returned without the json.Marshal error being nil")
+		switch kind, errOK := c21MarshalOf(w, r.Results[0], msg, r.Block(), 0); {
+		case kind == "msg" && errOK:
+		case kind == "msg":
+			bad = append(bad, "the payload is returned without the json.Marshal error being nil")
+		case kind == "other":
+			bad = append(bad, "the payload is json.Marshal of another value than the message: "+w.Term(r.Results[0]))
+		case an.IsNilConst(r.Results[0]):
+			bad = append(bad, "a nil payload is returned without an error")
+		default:
+			unk = append(unk, "cannot establish that the payload is json.Marshal(msg): "+w.Term(r.Results[0]))
 		}
 		// type
-		tc, _ := c21StripConv(r.Results[1]).(*ssa.Call)
-		if tc == nil || !tc.Call.IsInvoke() || tc.Call.Method.Name() != "MessageType" || tc.Call.Value != msg {
-			good = false
-			why = append(why, "the type is not msg.MessageType() of the marshalled message: "+w.Term(r.Results[1]))
+		tv := c21StripConv(r.Results[1])
+		tc, _ := tv.(*ssa.Call)
+		switch {
+		case tc != nil && tc.Call.IsInvoke() && tc.Call.Method.Name() == "MessageType" && tc.Call.Value == msg:
+		case tc != nil && tc.Call.IsInvoke() && tc.Call.Method.Name() == "MessageType":
+			bad = append(bad, "the type is MessageType() of another value than the marshalled message")
+		default:
+			if _, isK := tv.(*ssa.Const); isK {
+				bad = append(bad, "the type is not msg.MessageType() of the marshalled message: "+w.Term(r.Results[1]))
+			} else {
+				unk = append(unk, "cannot establish that the type is msg.MessageType(): "+w.Term(r.Results[1]))
+			}
 		}
-		c.Decide(good, "C21.R2", "MarshalPeerswapMessage", w.Pos(r.Pos()), "returns json.Marshal(msg) with int(msg.MessageType())",
-			"payload and type number are not derived from the same message: "+strings.Join(why, "; "))
+		switch {
+		case len(bad) > 0:
+			c.Bad("C21.R2", "MarshalPeerswapMessage", w.Pos(r.Pos()), "payload and type number are not derived from the same message: "+strings.Join(bad, "; "))
+		case len(unk) > 0:
+			c.Unknown("C21.R2", "MarshalPeerswapMessage", w.Pos(r.Pos()), strings.Join(unk, "; "))
+		default:
+			c.OK("C21.R2", "MarshalPeerswapMessage", w.Pos(r.Pos()), "returns json.Marshal(msg) with int(msg.MessageType())")
+		}
 	}
 	c.AtLeast("C21.R2", "success returns of MarshalPeerswapMessage", n, 1)
 }
 
-// c21Walk enumerates acyclic paths (see c30Walk; duplicated to keep the files independent).
-func c21Walk(fn *ssa.Function, decide func(i *ssa.If) (t, f, ok bool), ret func(r *ssa.Return)) (ok bool, why string) {
+// Path enumeration with partial evaluation (the same machinery as in c30.go,
+// duplicated to keep the rule files independent).
+
+type c21Path struct {
+	blocks    []*ssa.BasicBlock
+	uncertain bool // a branch could not be evaluated: the path may be infeasible for the input
+}
+
+// c21V is a partially known value: k == 0 unknown, 1 boolean, 2 integer.
+type c21V struct {
+	k int
+	b bool
+	i int64
+}
+
+// resolve follows conversions and phis along the path.
+func (p *c21Path) resolve(v ssa.Value) ssa.Value {
+	for depth := 0; depth < 32; depth++ {
+		switch x := v.(type) {
+		case *ssa.ChangeType:
+			v = x.X
+			continue
+		case *ssa.Convert:
+			v = x.X
+			continue
+		case *ssa.Phi:
+			b := x.Block()
+			at := -1
+			for i := len(p.blocks) - 1; i > 0; i-- {
+				if p.blocks[i] == b {
+					at = i
+					break
+				}
+			}
+			if at < 1 {
+				return nil
+			}
+			pred := p.blocks[at-1]
+			var got ssa.Value
+			for i, pr := range b.Preds {
+				if pr == pred {
+					if got != nil && got != x.Edges[i] {
+						return nil
+					}
+					got = x.Edges[i]
+				}
+			}
+			if got == nil {
+				return nil
+			}
+			v = got
+			continue
+		}
+		return v
+	}
+	return nil
+}
+
+func (p *c21Path) eval(v ssa.Value, leaf func(ssa.Value) (c21V, bool), depth int) c21V {
+	if depth > 24 || v == nil {
+		return c21V{}
+	}
+	// integer conversions are applied with Go's wrap-around semantics, so they
+	// are not skipped here (resolve would strip them)
+	for {
+		if ph, isPhi := v.(*ssa.Phi); isPhi {
+			v = p.resolve(ph)
+			if v == nil {
+				return c21V{}
+			}
+			continue
+		}
+		if ct, isCT := v.(*ssa.ChangeType); isCT {
+			v = ct.X
+			continue
+		}
+		break
+	}
+	if cv, isConv := v.(*ssa.Convert); isConv {
+		in := p.eval(cv.X, leaf, depth+1)
+		if in.k == 2 {
+			if out, ok := c21Wrap(in.i, cv.Type()); ok {
+				return c21V{k: 2, i: out}
+			}
+			return c21V{}
+		}
+		return in
+	}
+	if r, ok := leaf(v); ok {
+		return r
+	}
+	switch x := v.(type) {
+	case *ssa.Const:
+		if x.Value == nil {
+			return c21V{}
+		}
+		switch x.Value.Kind() {
+		case constant.Bool:
+			return c21V{k: 1, b: constant.BoolVal(x.Value)}
+		case constant.Int:
+			if i, ok := constant.Int64Val(x.Value); ok {
+				return c21V{k: 2, i: i}
+			}
+		}
+	case *ssa.UnOp:
+		a := p.eval(x.X, leaf, depth+1)
+		switch {
+		case x.Op == token.NOT && a.k == 1:
+			return c21V{k: 1, b: !a.b}
+		case x.Op == token.SUB && a.k == 2:
+			return c21V{k: 2, i: -a.i}
+		}
+	case *ssa.BinOp:
+		a, b := p.eval(x.X, leaf, depth+1), p.eval(x.Y, leaf, depth+1)
+		switch {
+		case a.k == 2 && b.k == 2:
+			switch x.Op {
+			case token.ADD:
+				return c21V{k: 2, i: a.i + b.i}
+			case token.SUB:
+				return c21V{k: 2, i: a.i - b.i}
+			case token.MUL:
+				return c21V{k: 2, i: a.i * b.i}
+			case token.QUO:
+				if b.i != 0 {
+					return c21V{k: 2, i: a.i / b.i}
+				}
+			case token.REM:
+				if b.i != 0 {
+					return c21V{k: 2, i: a.i % b.i}
+				}
+			case token.AND:
+				return c21V{k: 2, i: a.i & b.i}
+			case token.EQL:
+				return c21V{k: 1, b: a.i == b.i}
+			case token.NEQ:
+				return c21V{k: 1, b: a.i != b.i}
+			case token.LSS:
+				return c21V{k: 1, b: a.i < b.i}
+			case token.LEQ:
+				return c21V{k: 1, b: a.i <= b.i}
+			case token.GTR:
+				return c21V{k: 1, b: a.i > b.i}
+			case token.GEQ:
+				return c21V{k: 1, b: a.i >= b.i}
+			}
+		case a.k == 1 && b.k == 1:
+			switch x.Op {
+			case token.EQL:
+				return c21V{k: 1, b: a.b == b.b}
+			case token.NEQ:
+				return c21V{k: 1, b: a.b != b.b}
+			case token.AND:
+				return c21V{k: 1, b: a.b && b.b}
+			case token.OR:
+				return c21V{k: 1, b: a.b || b.b}
+			}
+		}
+	}
+	return c21V{}
+}
+
+// c21Wrap converts i to the integer type t the way Go does (truncation to the
+// width, reinterpretation by signedness). 64-bit int/uint are assumed.
+func c21Wrap(i int64, t types.Type) (int64, bool) {
+	b, ok := t.Underlying().(*types.Basic)
+	if !ok || b.Info()&types.IsInteger == 0 {
+		return 0, false
+	}
+	switch b.Kind() {
+	case types.Int8:
+		return int64(int8(i)), true
+	case types.Int16:
+		return int64(int16(i)), true
+	case types.Int32:
+		return int64(int32(i)), true
+	case types.Uint8:
+		return int64(uint8(i)), true
+	case types.Uint16:
+		return int64(uint16(i)), true
+	case types.Uint32:
+		return int64(uint32(i)), true
+	case types.Int, types.Int64:
+		return i, true
+	case types.Uint, types.Uint64, types.Uintptr:
+		if i < 0 {
+			return 0, false // not representable in this evaluator
+		}
+		return i, true
+	}
+	return 0, false
+}
+
+// c21Walk enumerates the acyclic paths of fn under a partial valuation: a
+// branch whose condition evaluates is followed one way, any other both ways
+// (marking the path uncertain).
+func c21Walk(fn *ssa.Function, leaf func(ssa.Value) (c21V, bool), ret func(r *ssa.Return, p *c21Path)) (ok bool, why string) {
 	ok = true
 	n := 0
-	var rec func(b *ssa.BasicBlock, path []*ssa.BasicBlock)
-	rec = func(b *ssa.BasicBlock, path []*ssa.BasicBlock) {
+	var rec func(b *ssa.BasicBlock, p *c21Path)
+	rec = func(b *ssa.BasicBlock, p *c21Path) {
 		if !ok {
 			return
 		}
-		for _, x := range path {
+		for _, x := range p.blocks {
 			if x == b {
 				ok, why = false, "a loop lies on an explored path"
 				return
 			}
 		}
-		path = append(path, b)
+		p = &c21Path{blocks: append(append([]*ssa.BasicBlock{}, p.blocks...), b), uncertain: p.uncertain}
 		switch x := b.Instrs[len(b.Instrs)-1].(type) {
 		case *ssa.Return:
 			n++
@@ -399,27 +904,27 @@ func c21Walk(fn *ssa.Function, decide func(i *ssa.If) (t, f, ok bool), ret func(
 				ok, why = false, "too many paths"
 				return
 			}
-			ret(x)
+			ret(x, p)
 		case *ssa.Jump:
-			rec(b.Succs[0], path)
+			rec(b.Succs[0], p)
 		case *ssa.If:
-			t, f, dok := decide(x)
-			if !dok {
-				ok, why = false, "a branch condition could not be interpreted at "+fmt.Sprint(x.Cond)
+			if r := p.eval(x.Cond, leaf, 0); r.k == 1 {
+				if r.b {
+					rec(b.Succs[0], p)
+				} else {
+					rec(b.Succs[1], p)
+				}
 				return
 			}
-			if t {
-				rec(b.Succs[0], path)
-			}
-			if f {
-				rec(b.Succs[1], path)
-			}
+			q := &c21Path{blocks: p.blocks, uncertain: true}
+			rec(b.Succs[0], q)
+			rec(b.Succs[1], q)
 		case *ssa.Panic:
 		default:
 			ok, why = false, fmt.Sprintf("unsupported terminator %T", x)
 		}
 	}
-	rec(fn.Blocks[0], nil)
+	rec(fn.Blocks[0], &c21Path{})
 	return
 }
 
@@ -429,7 +934,7 @@ func c21R2Custom(c *an.Check, fn, toHex *ssa.Function, byNum map[int64]int) {
 	// the parse call
 	var parse *ssa.Call
 	for _, call := range an.Calls(fn) {
-		if cc, ok := call.(*ssa.Call); ok && w.Info(call).Name == "func:strconv.ParseInt" {
+		if cc, ok := call.(*ssa.Call); ok && (w.Info(call).Name == "func:strconv.ParseInt" || w.Info(call).Name == "func:strconv.ParseUint") {
 			if parse != nil {
 				c.Unknown("C21.R2", "PeerswapCustomMessageType", pos, "more than one ParseInt call")
 				return
@@ -441,9 +946,15 @@ func c21R2Custom(c *an.Check, fn, toHex *ssa.Function, byNum map[int64]int) {
 		c.Unknown("C21.R2", "PeerswapCustomMessageType", pos, "the type string is not parsed with strconv.ParseInt")
 		return
 	}
-	base, _ := an.ConstInt(parse.Call.Args[1])
-	c.Decide(parse.Call.Args[0] == ssa.Value(fn.Params[0]) && base == 16, "C21.R2", "PeerswapCustomMessageType parse base", w.Pos(parse.Pos()),
-		"the type string is parsed as base 16", fmt.Sprintf("the type string is parsed with base %d (argument %s): the hexadecimal type prefix of a custom message is misread", base, w.Term(parse.Call.Args[0])))
+	base, baseConst := an.ConstInt(parse.Call.Args[1])
+	switch {
+	case baseConst && base != 16:
+		c.Bad("C21.R2", "PeerswapCustomMessageType parse base", w.Pos(parse.Pos()), fmt.Sprintf("the type string is parsed with base %d (argument %s): the hexadecimal type prefix of a custom message is misread", base, w.Term(parse.Call.Args[0])))
+	case !baseConst || parse.Call.Args[0] != ssa.Value(fn.Params[0]):
+		c.Unknown("C21.R2", "PeerswapCustomMessageType parse base", w.Pos(parse.Pos()), "ParseInt is not applied to the type string itself with a constant base ("+w.Term(parse.Call.Args[0])+")")
+	default:
+		c.OK("C21.R2", "PeerswapCustomMessageType parse base", w.Pos(parse.Pos()), "the type string is parsed as base 16")
+	}
 	var parsed, perr ssa.Value
 	if vs := an.ResultValues(parse, 0); len(vs) == 1 {
 		parsed = vs[0]
@@ -456,7 +967,11 @@ func c21R2Custom(c *an.Check, fn, toHex *ssa.Function, byNum map[int64]int) {
 		return
 	}
 	// evaluate on sample numbers
-	samples := map[int64]bool{0: true, 1: true, 42067: true, 42068: true, 42086: true, 42087: true, 65535: true}
+	// besides the table and its neighbours: numbers outside 16 / 32 bits and
+	// negative numbers whose low 16 bits are a table number (a narrowing
+	// conversion of the parsed value would let them through)
+	samples := map[int64]bool{0: true, 1: true, 42067: true, 42068: true, 42086: true, 42087: true, 65535: true,
+		0x10000 + 42069: true, 0xffff0000 | 42079: true, 42069 - 0x10000: true, 1<<32 + 42077: true, 1<<32 + 0x10000 + 42081: true, -42069: true, -1: true}
 	for _, e := range c21Proto {
 		samples[e.num], samples[e.num+1], samples[e.num-1] = true, true, true
 	}
@@ -465,100 +980,88 @@ func c21R2Custom(c *an.Check, fn, toHex *ssa.Function, byNum map[int64]int) {
 		keys = append(keys, k)
 	}
 	sort.Slice(keys, func(i, j int) bool { return keys[i] < keys[j] })
-	var wrong []string
+	var wrong, undecided []string
 	unknown := ""
 	for _, v := range keys {
+		v := v
 		type res struct {
-			val    int64
-			isK    bool
-			nilErr bool
-			errSrc []string
+			val       int64
+			isK       bool
+			nilErr    bool
+			errSrc    []string
+			uncertain bool
 		}
 		var rs []res
-		decide := func(i *ssa.If) (bool, bool, bool) {
-			cond := i.Cond
-			neg := false
-			for {
-				u, isU := cond.(*ssa.UnOp)
-				if !isU || u.Op != token.NOT {
-					break
-				}
-				neg, cond = !neg, u.X
+		// does the parse of this number succeed? (bit size / signedness of the parser)
+		parseOK, parseKnown := true, true
+		if bits, isK := an.ConstInt(parse.Call.Args[2]); isK {
+			if bits == 0 {
+				bits = 64
 			}
-			bo, isB := cond.(*ssa.BinOp)
-			if !isB {
-				return false, false, false
+			if w.Info(parse).Name == "func:strconv.ParseUint" {
+				parseOK = v >= 0 && (bits >= 63 || v < int64(1)<<uint(bits))
+			} else {
+				parseOK = bits >= 64 || (v >= -(int64(1)<<uint(bits-1)) && v < int64(1)<<uint(bits-1))
 			}
-			var holds bool
-			switch {
-			case (bo.X == perr && an.IsNilConst(bo.Y)) || (bo.Y == perr && an.IsNilConst(bo.X)):
-				holds = bo.Op == token.EQL // the parse succeeded
-			default:
-				val := func(x ssa.Value) (int64, bool) {
-					if k, ok := an.ConstInt(x); ok {
-						return k, true
-					}
-					if c21StripConv(x) == parsed {
-						return v, true
-					}
-					return 0, false
-				}
-				a, ok1 := val(bo.X)
-				b, ok2 := val(bo.Y)
-				if !ok1 || !ok2 {
-					return false, false, false
-				}
-				switch bo.Op {
-				case token.EQL:
-					holds = a == b
-				case token.NEQ:
-					holds = a != b
-				case token.LSS:
-					holds = a < b
-				case token.LEQ:
-					holds = a <= b
-				case token.GTR:
-					holds = a > b
-				case token.GEQ:
-					holds = a >= b
-				default:
-					return false, false, false
-				}
-			}
-			if neg {
-				holds = !holds
-			}
-			return holds, !holds, true
+		} else {
+			parseKnown = false
 		}
-		ret := func(r *ssa.Return) {
-			k, isK := an.ConstInt(r.Results[0])
-			if !isK && c21StripConv(r.Results[0]) == parsed {
-				k, isK = v, true
+		leaf := func(x ssa.Value) (c21V, bool) {
+			if x == parsed {
+				if !parseOK {
+					return c21V{}, true // no value when the parse failed
+				}
+				return c21V{k: 2, i: v}, true
 			}
-			rr := res{val: k, isK: isK, nilErr: an.IsNilConst(r.Results[1])}
+			if bo, isB := x.(*ssa.BinOp); isB && parseKnown && (bo.Op == token.EQL || bo.Op == token.NEQ) {
+				if (bo.X == perr && an.IsNilConst(bo.Y)) || (bo.Y == perr && an.IsNilConst(bo.X)) {
+					return c21V{k: 1, b: (bo.Op == token.EQL) == parseOK}, true
+				}
+			}
+			return c21V{}, false
+		}
+		okW, why := c21Walk(fn, leaf, func(r *ssa.Return, p *c21Path) {
+			rv := p.eval(r.Results[0], leaf, 0)
+			rr := res{val: rv.i, isK: rv.k == 2, nilErr: an.IsNilConst(r.Results[1]), uncertain: p.uncertain}
 			if !rr.nilErr {
-				rr.errSrc = w.Sources(r.Results[1], an.FlowOpts{}).Names()
+				rr.errSrc = w.Sources(r.Results[1], an.FlowOpts{IntoCallees: true}).Names()
 			}
 			rs = append(rs, rr)
-		}
-		okW, why := c21Walk(fn, decide, ret)
+		})
 		if !okW {
 			unknown = why
 			break
 		}
 		_, isProto := byNum[v]
-		if len(rs) != 1 {
-			wrong = append(wrong, fmt.Sprintf("%d: %d outcomes", v, len(rs)))
+		if len(rs) == 0 {
+			undecided = append(undecided, fmt.Sprintf("%d: no return reached", v))
 			continue
 		}
-		r := rs[0]
-		switch {
-		case isProto && !(r.nilErr && r.isK && r.val == v):
-			wrong = append(wrong, fmt.Sprintf("%d (%s) is answered with (%d, nil-error=%v)", v, c21Proto[byNum[v]].wire, r.val, r.nilErr))
-		case !isProto && r.nilErr:
-			wrong = append(wrong, fmt.Sprintf("%d is not a protocol number but is accepted as %d", v, r.val))
-		case !isProto && !c21HasSrc(r.errSrc, "NewErrNotPeerswapCustomMessage") && !c21HasSrc(r.errSrc, "ErrNotPeerswapCustomMessage"):
-			wrong = append(wrong, fmt.Sprintf("%d is rejected with %v instead of ErrNotPeerswapCustomMessage (OnMessageReceived then reports an error instead of ignoring the message)", v, r.errSrc))
+		for _, r := range rs {
+			// a verdict needs a path that is certainly taken for this number
+			flag := func(msg string) {
+				if r.uncertain {
+					undecided = append(undecided, msg)
+				} else {
+					wrong = append(wrong, msg)
+				}
+			}
+			switch {
+			case isProto && r.nilErr && r.isK && r.val == v:
+			case isProto && r.nilErr && !r.isK:
+				undecided = append(undecided, fmt.Sprintf("%d: the returned number is not determined", v))
+			case isProto:
+				flag(fmt.Sprintf("%d (%s) is answered with (%d, nil-error=%v)", v, c21Proto[byNum[v]].wire, r.val, r.nilErr))
+			case r.nilErr:
+				flag(fmt.Sprintf("%d is not a protocol number but is accepted as %d", v, r.val))
+			case !parseOK:
+				// the type string does not even parse: any error rejects it
+			case c21HasSrc(r.errSrc, "ErrNotPeerswapCustomMessage"):
+			case c21HasSrc(r.errSrc, "call:func:fmt.Errorf") || c21HasSrc(r.errSrc, "call:func:errors.New"):
+				flag(fmt.Sprintf("%d is rejected with %v instead of ErrNotPeerswapCustomMessage (OnMessageReceived then reports an error instead of ignoring the message)", v, r.errSrc))
+			default:
+				undecided = append(undecided, fmt.Sprintf("%d is rejected with an error whose origin %v is not followed", v, r.errSrc))
+			}
 		}
 	}
 	switch {
@@ -569,21 +1072,185 @@ func c21R2Custom(c *an.Check, fn, toHex *ssa.Function, byNum map[int64]int) {
 			wrong = append(wrong[:6], fmt.Sprintf("… %d more", len(wrong)-6))
 		}
 		c.Bad("C21.R2", "PeerswapCustomMessageType table", pos, "the reader's type table deviates from the protocol table: "+strings.Join(wrong, "; "))
+	case len(undecided) > 0:
+		c.Unknown("C21.R2", "PeerswapCustomMessageType table", pos, "the answer for some numbers depends on something this rule does not evaluate: "+undecided[0])
 	default:
 		c.OK("C21.R2", "PeerswapCustomMessageType table", pos, fmt.Sprintf("%d numbers evaluated: the nine protocol numbers map to themselves, all others to ErrNotPeerswapCustomMessage", len(keys)))
 	}
 	c.AtLeast("C21.R2", "evaluated type numbers", len(keys), 20)
 
 	// printing side
-	good := false
+	verdict := "unknown"
 	for _, r := range an.Returns(toHex) {
-		if cc, ok := r.Results[0].(*ssa.Call); ok && w.Info(cc).Name == "func:strconv.FormatInt" && len(toHex.Params) == 1 {
-			b, _ := an.ConstInt(cc.Call.Args[1])
-			good = b == 16 && c21StripConv(cc.Call.Args[0]) == ssa.Value(toHex.Params[0])
+		cc, ok := r.Results[0].(*ssa.Call)
+		if !ok || len(toHex.Params) != 1 {
+			continue
+		}
+		switch w.Info(cc).Name {
+		case "func:strconv.FormatInt", "func:strconv.FormatUint":
+			if b, isK := an.ConstInt(cc.Call.Args[1]); isK && c21StripConv(cc.Call.Args[0]) == ssa.Value(toHex.Params[0]) {
+				if b == 16 {
+					verdict = "ok"
+				} else {
+					verdict = "bad"
+				}
+			}
+		case "func:fmt.Sprintf":
+			if f, isS := an.ConstString(cc.Call.Args[0]); isS && (f == "%x" || f == "%04x") {
+				verdict = "ok"
+			}
 		}
 	}
-	c.Decide(good, "C21.R2", "MessageTypeToHexString base", w.Pos(toHex.Pos()), "the type is printed as base 16 of the number",
-		"MessageTypeToHexString does not return strconv.FormatInt(int64(type), 16): sender and parser use different encodings of the type")
+	switch verdict {
+	case "ok":
+		c.OK("C21.R2", "MessageTypeToHexString base", w.Pos(toHex.Pos()), "the type is printed as base 16 of the number")
+	case "bad":
+		c.Bad("C21.R2", "MessageTypeToHexString base", w.Pos(toHex.Pos()), "MessageTypeToHexString prints the type in another base than 16: sender and parser use different encodings of the type")
+	default:
+		c.Unknown("C21.R2", "MessageTypeToHexString base", w.Pos(toHex.Pos()), "MessageTypeToHexString is not strconv.FormatInt(int64(type), <constant>) nor fmt.Sprintf(\"%x\", type)")
+	}
+}
+
+// c21IntWidth: bit width and signedness of an integer type (64-bit int assumed).
+func c21IntWidth(t types.Type) (bits int, signed bool, ok bool) {
+	b, isB := t.Underlying().(*types.Basic)
+	if !isB || b.Info()&types.IsInteger == 0 {
+		return 0, false, false
+	}
+	switch b.Kind() {
+	case types.Int8:
+		return 8, true, true
+	case types.Int16:
+		return 16, true, true
+	case types.Int32:
+		return 32, true, true
+	case types.Int, types.Int64:
+		return 64, true, true
+	case types.Uint8:
+		return 8, false, true
+	case types.Uint16:
+		return 16, false, true
+	case types.Uint32:
+		return 32, false, true
+	case types.Uint, types.Uint64, types.Uintptr:
+		return 64, false, true
+	}
+	return 0, false, false
+}
+
+// c21R2Conversions: a received type number must not be truncated into
+// MessageType. Every production conversion of a non-constant integer into
+// messages.MessageType must be value-preserving for every source value, or its
+// operand must be the result of a strconv parse whose bit size fits the target.
+// (The conversion inside PeerswapCustomMessageType is additionally covered by
+// the table evaluation, which applies Go's wrap-around.)
+func c21R2Conversions(c *an.Check, mt *types.Named) {
+	w := c.W
+	tb, tsigned, ok := c21IntWidth(mt)
+	if !ok {
+		c.Unknown("C21.R2", "conversions into MessageType", w.Pos(mt.Obj().Pos()), "MessageType is not an integer type")
+		return
+	}
+	n := 0
+	seen := map[string]int{}
+	for _, fn := range prodFuncs(w) {
+		for _, b := range fn.Blocks {
+			for _, in := range b.Instrs {
+				var src ssa.Value
+				switch x := in.(type) {
+				case *ssa.Convert:
+					if types.Identical(x.Type(), mt) {
+						src = x.X
+					}
+				case *ssa.ChangeType:
+					if types.Identical(x.Type(), mt) {
+						src = x.X
+					}
+				}
+				if src == nil {
+					continue
+				}
+				if _, isConst := src.(*ssa.Const); isConst {
+					continue
+				}
+				sb, ssigned, isInt := c21IntWidth(src.Type())
+				if !isInt {
+					continue
+				}
+				n++
+				cons := w.FuncName(fn) + " convert " + src.Type().String() + " to MessageType"
+				seen[cons]++
+				if seen[cons] > 1 {
+					cons += fmt.Sprintf(" #%d", seen[cons])
+				}
+				pos := w.Pos(in.Pos())
+				// value-preserving for all source values?
+				preserving := (ssigned == tsigned && sb <= tb) || (!ssigned && tsigned && sb < tb)
+				if preserving {
+					c.OK("C21.R2", cons, pos, "the conversion preserves every source value")
+					continue
+				}
+				// a parse limited to the target's range
+				if ex, isEx := src.(*ssa.Extract); isEx && ex.Index == 0 {
+					if pc, isCall := ex.Tuple.(*ssa.Call); isCall {
+						name := w.Info(pc).Name
+						if (name == "func:strconv.ParseInt" || name == "func:strconv.ParseUint") && len(pc.Call.Args) == 3 {
+							if bits, isK := an.ConstInt(pc.Call.Args[2]); isK && bits != 0 {
+								fits := (name == "func:strconv.ParseUint" && !tsigned && int(bits) <= tb) || (name == "func:strconv.ParseUint" && tsigned && int(bits) < tb) || (name == "func:strconv.ParseInt" && tsigned && int(bits) <= tb)
+								if fits {
+									c.OK("C21.R2", cons, pos, "the operand is parsed with a bit size that fits MessageType")
+									continue
+								}
+							}
+						}
+					}
+				}
+				// sign-only change at equal width loses negative / huge values but no low bits;
+				// a narrower target silently maps foreign numbers onto protocol numbers
+				if sb > tb {
+					// guarded by a range test on the operand?
+					guarded := false
+					term := w.Term(src)
+					for _, f := range w.FactsDominating(in) {
+						if _, has := f.Terms[term]; has && !f.NonNum && (f.Rel == ">" || f.Rel == ">=") {
+							guarded = true
+						}
+					}
+					// our own numbers on the way out (the operand only ever holds
+					// MessageType() results or protocol constants) survive the round trip
+					own, ownKnown := true, false
+					if _, isParam := src.(*ssa.Parameter); isParam {
+						ownKnown = true
+						ss := w.Sources(src, an.FlowOpts{IntoCallers: true, IntoCallees: true, MaxDepth: 8, FieldsThroughWriters: map[string]bool{"SwapData.NextMessageType": true}})
+						if len(ss.Leaves) == 0 {
+							own = false
+						}
+						for _, l := range ss.Leaves {
+							switch {
+							case l.Kind == "call" && strings.HasSuffix(l.Name, ".MessageType#0"):
+							case l.Kind == "const":
+							default:
+								own = false
+							}
+						}
+					}
+					switch {
+					case guarded:
+						c.Unknown("C21.R2", cons, pos, "a narrowing conversion behind a comparison of the operand; the rule does not decide whether the comparison confines it to the target range")
+					case ownKnown && own:
+						c.OK("C21.R2", cons, pos, "narrowing, but the operand only carries MessageType() results and constants (sending side)")
+					case ownKnown:
+						c.Unknown("C21.R2", cons, pos, "a narrowing conversion of a parameter whose origins this rule cannot enumerate")
+					default:
+						c.Bad("C21.R2", cons, pos, fmt.Sprintf("a %d-bit value is truncated to the %d-bit MessageType without a range check: a foreign type number whose low %d bits equal a peerswap number (e.g. 0x1a455) is taken for a peerswap message", sb, tb, tb))
+					}
+					continue
+				}
+				c.Unknown("C21.R2", cons, pos, "the conversion changes signedness at equal width; not judged")
+			}
+		}
+	}
+	c.AtLeast("C21.R2", "integer conversions into MessageType in production code", n, 2)
 }
 
 func c21HasSrc(names []string, sub string) bool {
@@ -712,20 +1379,97 @@ func c21FieldCodec(w *an.World, t types.Type) string {
 
 // ---- R4 ------------------------------------------------------------------------------
 
+// c21EffectFree: a callee that neither decodes, nor calls a service, handler or
+// state machine: everything it (transitively, through in-module static calls)
+// invokes is a library function, a builtin, the module's logging package or an
+// error's Error method. Logging a message is not "handling" it.
+func c21EffectFree(w *an.World, f *ssa.Function) bool {
+	if f == nil || !w.InModule(f) || f.Blocks == nil {
+		return false
+	}
+	if w.FnRel(f) == "log" {
+		return true
+	}
+	for _, ef := range w.Summary(f).Effects {
+		n := ef.Name
+		switch {
+		case n == c21FnUnmarshal:
+			return false
+		case strings.HasPrefix(n, "builtin:"):
+		case n == "iface:error.Error":
+		case strings.HasPrefix(n, "iface:log."):
+		case strings.HasPrefix(n, "func:") && ef.Info.Static != nil && !w.InModule(ef.Info.Static):
+		case strings.HasPrefix(n, "func:") && ef.Info.Static != nil && (w.FnRel(ef.Info.Static) == "log" || w.FnRel(ef.Info.Static) == w.FnRel(f)):
+			// own package: followed by the summary itself
+		default:
+			return false
+		}
+	}
+	// no stores into module state
+	clean := true
+	var visit func(g *ssa.Function, depth int)
+	seen := map[*ssa.Function]bool{}
+	visit = func(g *ssa.Function, depth int) {
+		if g == nil || seen[g] || g.Blocks == nil || depth > 4 {
+			return
+		}
+		seen[g] = true
+		for _, b := range g.Blocks {
+			for _, in := range b.Instrs {
+				switch x := in.(type) {
+				case *ssa.Store:
+					switch x.Addr.(type) {
+					case *ssa.Alloc:
+					case *ssa.IndexAddr, *ssa.FieldAddr:
+						// stores into locals built in place are fine; anything rooted elsewhere is not
+						root := x.Addr
+						for {
+							switch y := root.(type) {
+							case *ssa.IndexAddr:
+								root = y.X
+								continue
+							case *ssa.FieldAddr:
+								root = y.X
+								continue
+							}
+							break
+						}
+						if _, isLocal := root.(*ssa.Alloc); !isLocal {
+							clean = false
+						}
+					default:
+						clean = false
+					}
+				case *ssa.MapUpdate, *ssa.Send, *ssa.Go:
+					clean = false
+				case ssa.CallInstruction:
+					if callee := x.Common().StaticCallee(); callee != nil && w.InModule(callee) && w.FnRel(callee) != "log" {
+						visit(callee, depth+1)
+					}
+				}
+			}
+		}
+	}
+	visit(f, 0)
+	return clean
+}
+
 // c21Effectful: calls of OnMessageReceived that decode, consult or change
 // state: json.Unmarshal, in-module static calls (other than the type parser and
-// pure error constructors) and interface / dynamic calls.
-func c21Effectful(w *an.World, fn *ssa.Function) []ssa.CallInstruction {
+// effect-free helpers such as logging and error constructors) and interface /
+// dynamic calls.
+func c21Effectful(w *an.World, d *c21Dispatch) []ssa.CallInstruction {
 	var out []ssa.CallInstruction
-	for _, call := range an.Calls(fn) {
+	for _, call := range an.Calls(d.fn) {
 		ci := w.Info(call)
 		switch {
 		case ci.Name == c21FnUnmarshal:
 			out = append(out, call)
-		case ci.Name == c21FnCustom:
+		case d.parse != nil && call == ssa.CallInstruction(d.parse):
 		case strings.HasPrefix(ci.Name, "builtin:"):
 		case ci.Static != nil && !w.InModule(ci.Static):
 			// library helpers (errors.New, errors.Is, fmt.*)
+		case ci.Static != nil && c21EffectFree(w, ci.Static):
 		default:
 			out = append(out, call)
 		}
@@ -733,8 +1477,9 @@ func c21Effectful(w *an.World, fn *ssa.Function) []ssa.CallInstruction {
 	return out
 }
 
-func c21R4(c *an.Check, fn *ssa.Function, numOf map[*types.Named]int64) {
+func c21R4(c *an.Check, d *c21Dispatch, numOf map[*types.Named]int64) {
 	w := c.W
+	fn := d.fn
 	pos := w.Pos(fn.Pos())
 	// payload parameter: the []byte one
 	pi := -1
@@ -754,77 +1499,106 @@ func c21R4(c *an.Check, fn *ssa.Function, numOf map[*types.Named]int64) {
 		return
 	}
 	term := fmt.Sprintf("len(param#%d)", pi)
-	// size guard: an edge with fact len(payload) - K > 0 (K <= 102400) or >= (K <= 102401)
-	var pass *an.Edge
+	// size guards: edges with fact len(payload) - K > 0 (K <= 102400) or >= (K <= 102401)
+	var passes []an.Edge
 	var limit int64
+	nLenTests := 0
 	for _, f := range w.Facts(fn) {
 		if f.NonNum || len(f.Terms) != 1 || f.Terms[term] != 1 {
 			continue
 		}
+		nLenTests++
 		k := -f.Const
 		rejects := (f.Rel == ">" && k <= c21MaxPayload) || (f.Rel == ">=" && k <= c21MaxPayload+1)
 		if !rejects || k < 1 {
 			continue
 		}
 		e := an.Edge{From: f.Edge.From, Idx: 1 - f.Edge.Idx}
-		pass, limit = &e, k
+		// the rejecting edge must not fall through into the handling code
+		if an.ReachBlocks([]*ssa.BasicBlock{f.Edge.To()}, nil, nil)[e.To()] {
+			continue
+		}
+		passes = append(passes, e)
+		limit = k
 		if f.Rel == ">=" {
 			limit = k - 1
 		}
-		// the rejecting edge must not fall through into the handling code
-		rej := an.ReachBlocks([]*ssa.BasicBlock{f.Edge.To()}, nil, nil)
-		if rej[e.To()] {
-			pass = nil
-			continue
-		}
-		break
 	}
-	if pass == nil {
+	switch {
+	case len(passes) > 0:
+		c.OK("C21.R4", "OnMessageReceived size guard", w.Pos(passes[0].From.Instrs[len(passes[0].From.Instrs)-1].(*ssa.If).Cond.Pos()), fmt.Sprintf("payloads longer than %d bytes take the rejecting edge", limit))
+	case nLenTests > 0:
 		c.Bad("C21.R4", "OnMessageReceived size guard", pos, fmt.Sprintf("no test of len(payload) rejects every payload above %d bytes (100 KiB). Tests in the function: %s", c21MaxPayload, an.DescribeFacts(w.Facts(fn))))
-	} else {
-		c.OK("C21.R4", "OnMessageReceived size guard", w.Pos(pass.From.Instrs[len(pass.From.Instrs)-1].(*ssa.If).Cond.Pos()), fmt.Sprintf("payloads longer than %d bytes take the rejecting edge", limit))
+	default:
+		// is the payload looked at by any branch at all (e.g. through a helper)?
+		dep := map[ssa.Value]bool{fn.Params[pi]: true}
+		looked := false
+		for _, b := range fn.Blocks {
+			if i, ok := b.Instrs[len(b.Instrs)-1].(*ssa.If); ok && c21DependsOn(i.Cond, dep) {
+				looked = true
+			}
+		}
+		if looked {
+			c.Unknown("C21.R4", "OnMessageReceived size guard", pos, "the payload is tested, but not by a comparison of len(payload) with a constant that this rule can read")
+		} else {
+			c.Bad("C21.R4", "OnMessageReceived size guard", pos, fmt.Sprintf("no branch of OnMessageReceived depends on the payload size: payloads above %d bytes (100 KiB) are handled like any other", c21MaxPayload))
+		}
+	}
+	behindSize := func(b *ssa.BasicBlock) bool {
+		for _, e := range passes {
+			if an.EdgeDominates(e, b) {
+				return true
+			}
+		}
+		return false
 	}
 	// type parse
-	var okParse []an.Edge
-	parses := callsNamed(w, fn, c21FnCustom)
-	if len(parses) == 1 {
-		if pc, ok := parses[0].(*ssa.Call); ok {
-			okParse, _ = an.OkEdges(pc)
+	switch {
+	case d.parse == nil:
+		c.Unknown("C21.R4", "OnMessageReceived type guard", pos, "PeerswapCustomMessageType (or a helper handing its results back) is not called exactly once")
+	case len(d.okParse) == 0:
+		var errV ssa.Value
+		if vs := an.ResultValues(d.parse, 1); len(vs) > 0 {
+			errV = vs[0]
 		}
+		if errV == nil || errV.Referrers() == nil || len(*errV.Referrers()) == 0 {
+			c.Bad("C21.R4", "OnMessageReceived type guard", w.Pos(d.parse.Pos()), "the error of PeerswapCustomMessageType is discarded: non-peerswap types are not filtered")
+		} else {
+			c.Unknown("C21.R4", "OnMessageReceived type guard", w.Pos(d.parse.Pos()), "the error of PeerswapCustomMessageType is not compared with nil here but handed on")
+		}
+	default:
+		c.OK("C21.R4", "OnMessageReceived type guard", w.Pos(d.parse.Pos()), "the message type is parsed once and its error tested")
 	}
-	if len(okParse) == 0 {
-		c.Bad("C21.R4", "OnMessageReceived type guard", pos, "the result of PeerswapCustomMessageType is not tested (or it is not called exactly once): non-peerswap types are not filtered")
-	} else {
-		c.OK("C21.R4", "OnMessageReceived type guard", w.Pos(parses[0].Pos()), "the message type is parsed once and its error tested")
-	}
-	// unmarshal calls with their ok edges and number
+	// decodes of each arm, with their ok edges (only those made directly in fn)
 	type arm struct {
-		call *ssa.Call
-		ok   []an.Edge
-		num  int64
-		has  bool
+		ok  []an.Edge
+		num int64
 	}
 	var arms []arm
-	for _, u := range callsNamed(w, fn, c21FnUnmarshal) {
-		uc, isCall := u.(*ssa.Call)
-		if !isCall {
+	helperDecodes := map[ssa.CallInstruction]bool{}
+	for _, dec := range d.decodes {
+		if dec.ctx != dec.call {
+			helperDecodes[dec.ctx] = true
 			continue
 		}
-		okE, _ := an.OkEdges(uc)
-		a := arm{call: uc, ok: okE}
-		if nt, _, ok := c21UnmarshalTarget(u); ok {
-			a.num, a.has = numOf[nt]
+		uc, isCall := dec.call.(*ssa.Call)
+		if !isCall || dec.typ == nil {
+			continue
 		}
-		arms = append(arms, a)
+		if num, has := numOf[dec.typ]; has {
+			okE, _ := an.OkEdges(uc)
+			arms = append(arms, arm{ok: okE, num: num})
+		}
 	}
-	eff := c21Effectful(w, fn)
-	c.AtLeast("C21.R4", "decoding / handler / service calls in OnMessageReceived", len(eff), 20)
+	eff := c21Effectful(w, d)
+	// semantic floor: one decode and one handler per swap message
+	c.AtLeast("C21.R4", "decoding / handler / service calls in OnMessageReceived", len(eff), 8)
 	seen := map[string]int{}
 	for _, call := range eff {
 		ci := w.Info(call)
 		name := strings.TrimPrefix(strings.TrimPrefix(ci.Name, "func:"), "iface:")
 		isUnm := ci.Name == c21FnUnmarshal
-		armNums := c21ArmConsts(w, call)
+		armNums, onlyNeq, uninterpreted := d.guards(call)
 		cons := "OnMessageReceived call " + name
 		if len(armNums) == 1 {
 			cons += fmt.Sprintf(" [arm %d]", armNums[0])
@@ -833,63 +1607,185 @@ func c21R4(c *an.Check, fn *ssa.Function, numOf map[*types.Named]int64) {
 		if seen[cons] > 1 {
 			cons += fmt.Sprintf(" #%d", seen[cons])
 		}
-		var missing []string
-		if pass != nil && !an.EdgeDominates(*pass, call.Block()) {
+		var missing, unknown []string
+		if len(passes) > 0 && !behindSize(call.Block()) {
 			missing = append(missing, "not behind the size guard: an oversized payload reaches it")
 		}
-		if len(okParse) > 0 && !an.EdgesDominate(okParse, call.Block()) {
+		if len(d.okParse) > 0 && !an.EdgesDominate(d.okParse, call.Block()) {
 			missing = append(missing, "not behind the err==nil edge of PeerswapCustomMessageType: a non-peerswap type reaches it")
 		}
 		if !isUnm {
-			if len(armNums) != 1 {
-				missing = append(missing, "not inside exactly one `msgType == c` arm: it runs for unknown message types too")
-			} else {
-				okArm := false
+			switch {
+			case len(armNums) == 1:
+				okArm, anyArm := false, false
 				for _, a := range arms {
-					if a.has && a.num == armNums[0] && len(a.ok) > 0 && an.EdgesDominate(a.ok, call.Block()) {
+					if a.num != armNums[0] {
+						continue
+					}
+					anyArm = true
+					if len(a.ok) > 0 && an.EdgesDominate(a.ok, call.Block()) {
 						okArm = true
 					}
 				}
-				if !okArm {
+				switch {
+				case okArm:
+				case anyArm:
 					missing = append(missing, "not behind the err==nil edge of the json.Unmarshal of its arm: an undecodable payload reaches it")
+				case helperDecodes[call]:
+					// the callee decodes the payload itself
+				default:
+					unknown = append(unknown, "no json.Unmarshal of this arm was found in OnMessageReceived or in this callee: cannot tell whether an undecodable payload reaches the call")
 				}
+			case len(armNums) > 1:
+				unknown = append(unknown, fmt.Sprintf("dominated by several type tests %v", armNums))
+			case uninterpreted:
+				unknown = append(unknown, "the branch on the message type that leads here is not one this rule can read")
+			case onlyNeq || d.typeVal != nil:
+				missing = append(missing, "not inside exactly one `msgType == c` arm: it runs for unknown message types too")
+			default:
+				unknown = append(unknown, "the message type is not available")
 			}
 		}
-		c.Decide(len(missing) == 0, "C21.R4", cons, w.Pos(call.Pos()), "reached only by a well-sized peerswap message that decoded",
-			strings.Join(missing, "; "))
+		switch {
+		case len(missing) > 0:
+			c.Bad("C21.R4", cons, w.Pos(call.Pos()), strings.Join(missing, "; "))
+		case len(unknown) > 0:
+			c.Unknown("C21.R4", cons, w.Pos(call.Pos()), strings.Join(unknown, "; "))
+		default:
+			c.OK("C21.R4", cons, w.Pos(call.Pos()), "reached only by a well-sized peerswap message that decoded")
+		}
 	}
 }
 
 // ---- R5 ------------------------------------------------------------------------------
 
 // c21Pair classifies a (payload, type) argument pair.
-func c21Pair(w *an.World, payload, typ ssa.Value) (ok bool, why string) {
+// c21Pair classifies a (payload, type) pair used in fn: "ok" both come from
+// one MarshalPeerswapMessage call (directly, through the NextMessage /
+// NextMessageType fields of one swap, through a helper that hands the two
+// results back, or through fn's own parameters at every production call site),
+// "bad" they positively do not, "unknown" otherwise.
+func c21Pair(w *an.World, fn *ssa.Function, payload, typ ssa.Value, depth int) (verdict string, why string) {
 	p, t := c21StripConv(payload), c21StripConv(typ)
-	// both from one MarshalPeerswapMessage call
-	if pe, isE := p.(*ssa.Extract); isE {
-		te, isT := t.(*ssa.Extract)
-		if !isT {
-			return false, "the payload comes from a call but the type does not (" + w.Term(t) + ")"
-		}
-		pc, _ := pe.Tuple.(*ssa.Call)
-		if pc == nil || w.Info(pc).Name != c21FnMarshal || te.Tuple != pe.Tuple {
-			return false, "payload and type are not results of one MarshalPeerswapMessage call"
-		}
-		if pe.Index != 0 || te.Index != 1 {
-			return false, fmt.Sprintf("results #%d/#%d of MarshalPeerswapMessage are passed as payload/type", pe.Index, te.Index)
-		}
-		return true, ""
-	}
-	// both loaded from the NextMessage / NextMessageType fields of one object
+	pe, pIsE := p.(*ssa.Extract)
+	te, tIsE := t.(*ssa.Extract)
 	pf, pb := c21FieldLoad(p)
 	tf, tb := c21FieldLoad(t)
-	if pf == "SwapData.NextMessage" && tf == "SwapData.NextMessageType" {
-		if pb != tb {
-			return false, "NextMessage and NextMessageType are read from different swaps"
-		}
-		return true, ""
+	isMarshal := func(e *ssa.Extract) bool {
+		cc, _ := e.Tuple.(*ssa.Call)
+		return cc != nil && w.Info(cc).Name == c21FnMarshal
 	}
-	return false, "payload is " + w.Term(p) + ", type is " + w.Term(t)
+	switch {
+	case pIsE && tIsE && pe.Tuple == te.Tuple && isMarshal(pe):
+		if pe.Index != 0 || te.Index != 1 {
+			return "bad", fmt.Sprintf("results #%d/#%d of MarshalPeerswapMessage are passed as payload/type", pe.Index, te.Index)
+		}
+		return "ok", ""
+	case pIsE && tIsE && pe.Tuple == te.Tuple:
+		// a helper that hands a marshalled pair back
+		cc, _ := pe.Tuple.(*ssa.Call)
+		var f *ssa.Function
+		if cc != nil {
+			f = cc.Call.StaticCallee()
+		}
+		if f == nil || !w.InModule(f) || f.Blocks == nil || depth > 2 {
+			return "unknown", "payload and type are results of " + w.Term(p) + ", which is not followed"
+		}
+		res := "ok"
+		for _, r := range an.Returns(f) {
+			if pe.Index >= len(r.Results) || te.Index >= len(r.Results) || an.IsNilConst(r.Results[pe.Index]) {
+				continue
+			}
+			switch v, wy := c21Pair(w, f, r.Results[pe.Index], r.Results[te.Index], depth+1); v {
+			case "bad":
+				return "bad", "in " + w.FuncName(f) + ": " + wy
+			case "unknown":
+				res, why = "unknown", wy
+			}
+		}
+		return res, why
+	case pIsE && isMarshal(pe) && tIsE && isMarshal(te):
+		return "bad", "payload and type are results of two different MarshalPeerswapMessage calls"
+	case pIsE && isMarshal(pe) && (tf == "SwapData.NextMessageType" || c21IsConst(t)):
+		return "bad", "the payload comes from a call but the type does not (" + w.Term(t) + ")"
+	case tIsE && isMarshal(te) && (pf == "SwapData.NextMessage" || c21IsConst(p)):
+		return "bad", "the type comes from a call but the payload does not (" + w.Term(p) + ")"
+	case pf == "SwapData.NextMessage" && tf == "SwapData.NextMessageType":
+		if pb != tb && w.Term(pb) != w.Term(tb) {
+			return "unknown", "NextMessage and NextMessageType are read through different pointers"
+		}
+		return "ok", ""
+	case pf == "SwapData.NextMessage" && c21IsConst(t), tf == "SwapData.NextMessageType" && c21IsConst(p):
+		return "bad", "one of payload / type is the stored next message, the other a constant"
+	}
+	// both are parameters of fn: judge every production call site
+	pp, pIsP := p.(*ssa.Parameter)
+	tp, tIsP := t.(*ssa.Parameter)
+	if pIsP && tIsP && pp.Parent() == fn && tp.Parent() == fn && fn.Parent() == nil && depth <= 2 {
+		pi, ti := c21ParamIndex(pp), c21ParamIndex(tp)
+		n := 0
+		res := "ok"
+		for _, g := range prodFuncs(w) {
+			for _, call := range an.Calls(g) {
+				if call.Common().StaticCallee() != fn {
+					continue
+				}
+				args := call.Common().Args
+				if pi >= len(args) || ti >= len(args) {
+					continue
+				}
+				n++
+				switch v, wy := c21Pair(w, g, args[pi], args[ti], depth+1); v {
+				case "bad":
+					return "bad", "at the call in " + w.FuncName(g) + " (" + w.Pos(call.Pos()) + "): " + wy
+				case "unknown":
+					res, why = "unknown", wy
+				}
+			}
+		}
+		if n == 0 {
+			return "unknown", "payload and type are parameters of a function without static production callers"
+		}
+		return res, why
+	}
+	return "unknown", "payload is " + w.Term(p) + ", type is " + w.Term(t)
+}
+
+func c21IsConst(v ssa.Value) bool {
+	_, ok := v.(*ssa.Const)
+	return ok
+}
+
+func c21ParamIndex(p *ssa.Parameter) int {
+	for i, q := range p.Parent().Params {
+		if q == p {
+			return i
+		}
+	}
+	return -1
+}
+
+// c21Instances counts uses: a site inside a function that has static production
+// callers counts once per caller, so that folding repeated code into one helper
+// does not reduce the count.
+func c21Instances(w *an.World, fns []*ssa.Function) int {
+	n := 0
+	for _, fn := range fns {
+		fn = an.EnclosingTop(fn)
+		k := 0
+		for _, g := range prodFuncs(w) {
+			for _, call := range an.Calls(g) {
+				if call.Common().StaticCallee() == fn {
+					k++
+				}
+			}
+		}
+		if k < 1 {
+			k = 1
+		}
+		n += k
+	}
+	return n
 }
 
 func c21FieldLoad(v ssa.Value) (field string, base ssa.Value) {
@@ -907,7 +1803,7 @@ func c21FieldLoad(v ssa.Value) (field string, base ssa.Value) {
 func c21R5(c *an.Check, marshal *ssa.Function) {
 	w := c.W
 	// (a) send sites in package swap
-	n := 0
+	var sendFns []*ssa.Function
 	seen := map[string]int{}
 	for _, fn := range prodFuncs(w) {
 		if w.FnRel(fn) != "swap" {
@@ -926,52 +1822,81 @@ func c21R5(c *an.Check, marshal *ssa.Function) {
 			if len(args) != 3 {
 				continue
 			}
-			n++
+			sendFns = append(sendFns, fn)
 			cons := w.FuncName(fn) + " SendMessage"
 			seen[cons]++
 			if seen[cons] > 1 {
 				cons += fmt.Sprintf(" #%d", seen[cons])
 			}
-			ok, why := c21Pair(w, args[1], args[2])
-			c.Decide(ok, "C21.R5", cons, w.Pos(call.Pos()), "payload and type come from one MarshalPeerswapMessage call",
-				"a payload is sent with a type number that is not the one of the marshalled message: "+why)
+			switch v, why := c21Pair(w, fn, args[1], args[2], 0); v {
+			case "ok":
+				c.OK("C21.R5", cons, w.Pos(call.Pos()), "payload and type come from one MarshalPeerswapMessage call")
+			case "bad":
+				c.Bad("C21.R5", cons, w.Pos(call.Pos()), "a payload is sent with a type number that is not the one of the marshalled message: "+why)
+			default:
+				c.Unknown("C21.R5", cons, w.Pos(call.Pos()), "cannot relate the sent payload and type to one MarshalPeerswapMessage call: "+why)
+			}
 		}
 	}
-	c.AtLeast("C21.R5", "SendMessage call sites in package swap", n, 14)
+	c.AtLeast("C21.R5", "SendMessage uses in package swap (a shared helper counted once per caller)", c21Instances(w, sendFns), 14)
 
 	// (b) the stored pair
-	nSt := 0
+	var storeFns []*ssa.Function
+	partner := func(fn *ssa.Function, field string, base ssa.Value) []*ssa.Store {
+		var out []*ssa.Store
+		for _, ps := range w.FieldWriters(field) {
+			if ps.Parent() == fn && ps.Addr.(*ssa.FieldAddr).X == base {
+				out = append(out, ps)
+			}
+		}
+		return out
+	}
 	for _, st := range w.FieldWriters("SwapData.NextMessageType") {
 		fn := st.Parent()
 		if an.IsTestSupport(w.FnRel(fn)) {
 			continue
 		}
-		nSt++
+		storeFns = append(storeFns, fn)
 		cons := w.FuncName(fn) + " store NextMessageType"
 		fa := st.Addr.(*ssa.FieldAddr)
-		te, _ := c21StripConv(st.Val).(*ssa.Extract)
-		var mc *ssa.Call
-		if te != nil && te.Index == 1 {
-			mc, _ = te.Tuple.(*ssa.Call)
+		ps := partner(fn, "SwapData.NextMessage", fa.X)
+		verdict, why := "unknown", "no store to NextMessage of the same swap in this function"
+		tv := c21StripConv(st.Val)
+		te, _ := tv.(*ssa.Extract)
+		fromMarshal := false
+		if te != nil {
+			cc, _ := te.Tuple.(*ssa.Call)
+			fromMarshal = cc != nil && w.Info(cc).Name == c21FnMarshal
 		}
-		if mc == nil || w.Info(mc).Name != c21FnMarshal {
-			c.Bad("C21.R5", cons, w.Pos(st.Pos()), "NextMessageType is not result #1 of MarshalPeerswapMessage: "+w.Term(st.Val))
-			continue
-		}
-		paired := false
-		for _, ps := range w.FieldWriters("SwapData.NextMessage") {
-			if ps.Parent() != fn {
-				continue
+		switch {
+		case len(ps) == 0 && fromMarshal:
+			verdict, why = "bad", "NextMessageType is stored without NextMessage from the same MarshalPeerswapMessage call on the same swap: a later SendMessage pairs the payload with another message's number"
+		case len(ps) == 0 && c21IsConst(tv):
+			verdict, why = "bad", "NextMessageType is set to a constant, not to result #1 of MarshalPeerswapMessage: "+w.Term(st.Val)
+		default:
+			for _, p := range ps {
+				v, wy := c21Pair(w, fn, p.Val, st.Val, 0)
+				if v == "ok" || verdict == "unknown" {
+					verdict, why = v, wy
+				}
+				if v == "ok" {
+					break
+				}
 			}
-			pe, _ := c21StripConv(ps.Val).(*ssa.Extract)
-			if pe != nil && pe.Index == 0 && pe.Tuple == ssa.Value(mc) && ps.Addr.(*ssa.FieldAddr).X == fa.X {
-				paired = true
+			if verdict == "bad" {
+				why = "NextMessageType is not stored together with NextMessage from one MarshalPeerswapMessage call: " + why
 			}
 		}
-		c.Decide(paired, "C21.R5", cons, w.Pos(st.Pos()), "stored together with NextMessage from the same MarshalPeerswapMessage call",
-			"NextMessageType is stored without NextMessage from the same MarshalPeerswapMessage call on the same swap: a later SendMessage pairs the payload with another message's number")
+		switch verdict {
+		case "ok":
+			c.OK("C21.R5", cons, w.Pos(st.Pos()), "stored together with NextMessage from the same MarshalPeerswapMessage call")
+		case "bad":
+			c.Bad("C21.R5", cons, w.Pos(st.Pos()), why)
+		default:
+			c.Unknown("C21.R5", cons, w.Pos(st.Pos()), "cannot relate the stored type to the stored payload: "+why)
+		}
 	}
-	c.AtLeast("C21.R5", "stores to SwapData.NextMessageType", nSt, 5)
+	c.AtLeast("C21.R5", "settings of SwapData.NextMessageType (a shared helper counted once per caller)", c21Instances(w, storeFns), 5)
 	// every production store to NextMessage has its type stored too
 	for _, ps := range w.FieldWriters("SwapData.NextMessage") {
 		fn := ps.Parent()
@@ -979,21 +1904,38 @@ func c21R5(c *an.Check, marshal *ssa.Function) {
 			continue
 		}
 		cons := w.FuncName(fn) + " store NextMessage"
+		if an.IsNilConst(ps.Val) {
+			c.OK("C21.R5", cons, w.Pos(ps.Pos()), "clears the slot")
+			continue
+		}
+		ts := partner(fn, "SwapData.NextMessageType", ps.Addr.(*ssa.FieldAddr).X)
 		pe, _ := c21StripConv(ps.Val).(*ssa.Extract)
-		paired := false
-		if pe != nil && pe.Index == 0 {
-			for _, ts := range w.FieldWriters("SwapData.NextMessageType") {
-				te, _ := c21StripConv(ts.Val).(*ssa.Extract)
-				if ts.Parent() == fn && te != nil && te.Index == 1 && te.Tuple == pe.Tuple && ts.Addr.(*ssa.FieldAddr).X == ps.Addr.(*ssa.FieldAddr).X {
-					paired = true
-				}
+		fromMarshal := false
+		if pe != nil {
+			cc, _ := pe.Tuple.(*ssa.Call)
+			fromMarshal = cc != nil && w.Info(cc).Name == c21FnMarshal
+		}
+		verdict, why := "unknown", "no store to NextMessageType of the same swap in this function"
+		if len(ts) == 0 && fromMarshal {
+			verdict, why = "bad", "NextMessage is replaced without the matching NextMessageType: the new payload would be sent with the previous message's number"
+		}
+		for _, t := range ts {
+			v, wy := c21Pair(w, fn, ps.Val, t.Val, 0)
+			if v == "ok" || verdict == "unknown" {
+				verdict, why = v, wy
+			}
+			if v == "ok" {
+				break
 			}
 		}
-		if an.IsNilConst(ps.Val) {
-			paired = true // clearing the slot
+		switch verdict {
+		case "ok":
+			c.OK("C21.R5", cons, w.Pos(ps.Pos()), "stored together with NextMessageType from the same MarshalPeerswapMessage call")
+		case "bad":
+			c.Bad("C21.R5", cons, w.Pos(ps.Pos()), why)
+		default:
+			c.Unknown("C21.R5", cons, w.Pos(ps.Pos()), "cannot relate the stored payload to the stored type: "+why)
 		}
-		c.Decide(paired, "C21.R5", cons, w.Pos(ps.Pos()), "stored together with NextMessageType from the same MarshalPeerswapMessage call",
-			"NextMessage is replaced without the matching NextMessageType: the new payload would be sent with the previous message's number")
 	}
 
 	// (c) forwarding messengers in package messages pass their parameters through
@@ -1012,17 +1954,36 @@ func c21R5(c *an.Check, marshal *ssa.Function) {
 				continue
 			}
 			nFw++
-			good := true
+			verdict := "ok"
 			for i, a := range call.Common().Args {
-				if c21ParamOrigin(a) != ssa.Value(top.Params[i+1]) {
-					good = false
+				o := c21ParamOrigin(a)
+				switch {
+				case o == ssa.Value(top.Params[i+1]):
+				case o != nil:
+					verdict = "bad" // another parameter
+				default:
+					switch c21StripConv(a).(type) {
+					case *ssa.BinOp, *ssa.Const:
+						verdict = "bad" // computed from / replaced by something else
+					default:
+						if verdict == "ok" {
+							verdict = "unknown"
+						}
+					}
 				}
 			}
-			c.Decide(good, "C21.R5", w.FuncName(fn)+" forward SendMessage", w.Pos(call.Pos()), "the redundant messenger forwards (peer, payload, type) unchanged",
-				"the redundant messenger does not forward its (peer, payload, type) parameters unchanged")
+			cons := w.FuncName(fn) + " forward SendMessage"
+			switch verdict {
+			case "ok":
+				c.OK("C21.R5", cons, w.Pos(call.Pos()), "the redundant messenger forwards (peer, payload, type) unchanged")
+			case "bad":
+				c.Bad("C21.R5", cons, w.Pos(call.Pos()), "the redundant messenger does not forward its (peer, payload, type) parameters unchanged")
+			default:
+				c.Unknown("C21.R5", cons, w.Pos(call.Pos()), "cannot relate the forwarded arguments to the parameters of SendMessage")
+			}
 		}
 	}
-	c.AtLeast("C21.R5", "forwarding SendMessage calls in package messages", nFw, 2)
+	c.AtLeast("C21.R5", "forwarding SendMessage calls in package messages", nFw, 1)
 }
 
 // c21ParamOrigin resolves a value to the parameter it is (directly or as a
@@ -1104,12 +2065,12 @@ func c21AllocParam(al *ssa.Alloc) ssa.Value {
 
 // ---- R6 ------------------------------------------------------------------------------
 
-func c21R6(c *an.Check, fn *ssa.Function) {
+func c21R6(c *an.Check, d *c21Dispatch) {
 	w := c.W
 	n := 0
-	for _, u := range callsNamed(w, fn, c21FnUnmarshal) {
-		nt, al, ok := c21UnmarshalTarget(u)
-		if !ok || al == nil {
+	for _, dec := range d.decodes {
+		u, nt, al := dec.call, dec.typ, dec.slot
+		if nt == nil || al == nil {
 			continue
 		}
 		cons := "OnMessageReceived decoded *" + nt.Obj().Name()
@@ -1129,7 +2090,8 @@ func c21R6(c *an.Check, fn *ssa.Function) {
 		}
 		// non-nil edges of tests on loads of the slot
 		var nonNil []an.Edge
-		var derefs []ssa.Instruction
+		var derefs, escapes []ssa.Instruction
+		helperTested := false
 		for _, r := range *al.Referrers() {
 			ld, isLoad := r.(*ssa.UnOp)
 			if !isLoad || ld.Op != token.MUL || ld.Referrers() == nil {
@@ -1139,12 +2101,11 @@ func c21R6(c *an.Check, fn *ssa.Function) {
 				switch x := rr.(type) {
 				case *ssa.BinOp:
 					if (x.Op == token.EQL || x.Op == token.NEQ) && (an.IsNilConst(x.X) || an.IsNilConst(x.Y)) {
-						for _, ce := range an.CondUses(x) {
-							if x.Op == token.NEQ {
-								nonNil = append(nonNil, ce.True)
-							} else {
-								nonNil = append(nonNil, ce.False)
-							}
+						t, f := an.BoolEdges(x)
+						if x.Op == token.NEQ {
+							nonNil = append(nonNil, t...)
+						} else {
+							nonNil = append(nonNil, f...)
 						}
 					}
 				case *ssa.FieldAddr:
@@ -1155,33 +2116,56 @@ func c21R6(c *an.Check, fn *ssa.Function) {
 					if x.Op == token.MUL && x.X == ssa.Value(ld) {
 						derefs = append(derefs, x)
 					}
+				case *ssa.Return:
+					escapes = append(escapes, x)
 				case ssa.CallInstruction:
 					// value-receiver method call on the pointer dereferences it
-					if f := x.Common().StaticCallee(); f != nil && f.Signature.Recv() != nil && len(x.Common().Args) > 0 && x.Common().Args[0] == ssa.Value(ld) {
+					f := x.Common().StaticCallee()
+					if f != nil && f.Signature.Recv() != nil && len(x.Common().Args) > 0 && x.Common().Args[0] == ssa.Value(ld) {
 						if _, recvPtr := f.Signature.Recv().Type().(*types.Pointer); !recvPtr {
 							derefs = append(derefs, x)
+							continue
+						}
+					}
+					// handed to a predicate whose boolean result is branched on: a nil test this rule cannot read
+					if v := x.Value(); v != nil {
+						if b, isB := v.Type().Underlying().(*types.Basic); isB && b.Kind() == types.Bool {
+							if t, f := an.BoolEdges(v); len(t)+len(f) > 0 {
+								helperTested = true
+							}
 						}
 					}
 				}
 			}
 		}
 		var first ssa.Instruction
-		for _, d := range derefs {
-			if len(nonNil) > 0 && an.EdgesDominate(nonNil, d.Block()) {
+		for _, dr := range derefs {
+			if len(nonNil) > 0 && an.EdgesDominate(nonNil, dr.Block()) {
 				continue
 			}
-			if first == nil || d.Pos() < first.Pos() {
-				first = d
+			if first == nil || dr.Pos() < first.Pos() {
+				first = dr
 			}
 		}
-		if first == nil {
-			c.OK("C21.R6", cons, w.Pos(u.Pos()), fmt.Sprintf("%d dereferences, all behind a nil test", len(derefs)))
-			continue
+		escaped := false
+		for _, e := range escapes {
+			if len(nonNil) == 0 || !an.EdgesDominate(nonNil, e.Block()) {
+				escaped = true
+			}
 		}
-		c.Bad("C21.R6", cons, w.Pos(first.Pos()), "the payload `null` decodes without error into a nil *"+nt.Obj().Name()+
-			", which is dereferenced here without a nil test: the message is not ignored, the handler goroutine panics (no recover in the module) and the daemon/plugin terminates")
+		switch {
+		case first != nil && !helperTested:
+			c.Bad("C21.R6", cons, w.Pos(first.Pos()), "the payload `null` decodes without error into a nil *"+nt.Obj().Name()+
+				", which is dereferenced here without a nil test: the message is not ignored, the handler goroutine panics (no recover in the module) and the daemon/plugin terminates")
+		case first != nil:
+			c.Unknown("C21.R6", cons, w.Pos(first.Pos()), "the decoded pointer is dereferenced without a `!= nil` test in this function; it is handed to a predicate whose meaning this rule does not read")
+		case escaped:
+			c.Unknown("C21.R6", cons, w.Pos(u.Pos()), "the decoded pointer is returned to the caller without a nil test; the caller's use is not followed")
+		default:
+			c.OK("C21.R6", cons, w.Pos(u.Pos()), fmt.Sprintf("%d dereferences, all behind a nil test", len(derefs)))
+		}
 	}
-	c.AtLeast("C21.R6", "decoded message slots in OnMessageReceived", n, 7)
+	c.AtLeast("C21.R6", "decoded message slots reached from OnMessageReceived", n, 7)
 }
 
 // c21DeclaredMethod returns the declared (non-synthetic) method body.
